@@ -46,6 +46,34 @@ def spell_month_date(rng, lang, d, with_year, which):
     return '%d %s%s' % (d.day, name, (' %d' % d.year) if with_year else '')
 
 
+def _embeddable():
+    words = set()
+    for l in lex.languages():
+        lm, sm = lex.months(l)
+        words |= set(lm) | set(sm)
+        for ws in lex.duration_words(l).values():
+            words |= set(ws)
+        for ws in lex.operator_words(l).values():
+            words |= set(w for w in ws if w.isalpha())
+    return sorted(w for w in words if w.isalpha() and len(w) >= 2)
+
+
+EMBEDDABLE = _embeddable()
+ALL_WORDS = set()
+for _l in lex.languages():
+    ALL_WORDS |= lex.all_words(_l)
+
+
+def embed(rng, w):
+    """a longer word that contains the table word w (at its start, at its end or inside)"""
+    for _ in range(20):
+        pre, post = rng.choice(['zz', 'q', 'xk', 'pa', 'ho']), rng.choice(['zz', 'q', 'xk', 'be', 'total'])
+        lab = rng.choice([pre + w, w + post, pre + w + post])
+        if lab.lower() not in ALL_WORDS and lex.read_currency(lab) is None and lab.upper() not in lex.zones():
+            return lab
+    return 'zz' + w + 'zz'
+
+
 def value(slot):
     if slot is None or 'v' not in slot:
         return None
@@ -160,10 +188,39 @@ def run_shard(ctx):
                     text = rng.choice(['%s + %s%%' % (x, p), '%s - %%%s' % (x, p), '%s%% of %s' % (p, x), '%s on %s%%' % (x, p), '%s%% off %s' % (p, x),
                                        '%s is what %% of %s' % (p, x), '%s is %s%% of what' % (x, p)])
                     cls = 'percent'
-                else:
+                elif k < 0.86:
                     x, y = rng.randint(1, 999), rng.randint(1, 99)
                     text = 'zq = %d\nwv rate = zq * %d\nwv rate - zq' % (x, y)
                     cls = 'variables'
+                elif k < 0.93:
+                    # labels and names that merely *contain* a word of some language's tables (a month, duration or operator word of
+                    # any configured language inside a longer word) are ordinary text in every language
+                    labs = [embed(rng, rng.choice(EMBEDDABLE)) for _ in range(3)]
+                    a, b, c = rng.randint(1, 900), rng.randint(1, 90), rng.randint(1, 9)
+                    if rng.random() < 0.5:
+                        text = '%s %d + %s %d + %s %d' % (labs[0], a, labs[1], b, labs[2], c)
+                        oracle_ = ('number', float(a + b + c))
+                    else:
+                        text = '%s = %d\n%s = %d\n%s + %s' % (labs[0], a, labs[1], b, labs[0], labs[1])
+                        oracle_ = ('number', float(a + b)) if labs[0] != labs[1] else ('number', float(2 * b))
+                    cases.append(('label-containing-a-table-word', {l: text for l in langs}, oracle_, False))
+                    continue
+                else:
+                    # one phrase many times on a line: the rewriting needs as many rule applications as there are terms, in every language
+                    n = rng.choice([2, 5, 10, 14, 15, 16, 20, 21, 25, 30])
+                    kind = rng.randrange(3)
+                    if kind == 0:
+                        p_, x_ = rng.choice([10, 25, 50]), rng.choice([200, 80, 1000])
+                        text = ' + '.join(['%d%% of %d' % (p_, x_)] * n)
+                        oracle_ = ('number', float(n * (x_ * p_ // 100)))
+                    elif kind == 1:
+                        text = ' + '.join('$%d' % j for j in range(1, n + 1))
+                        oracle_ = None
+                    else:
+                        text = ' + '.join(['%d - 10%%' % rng.choice([100, 200])] * 1 + ['10%% of 50'] * (n - 1))
+                        oracle_ = None
+                    cases.append(('one-rule-many-times', {l: text for l in langs}, oracle_, False))
+                    continue
                 cases.append((cls, {l: text for l in langs}, None, False))
         # run per language
         results = {}
